@@ -670,13 +670,32 @@ class Rec(Ty):
     def wrap(self, term):
         s = self.sort()
         pos = {k: i for i, k in enumerate(sorted(self.fields))}
-        return VRec(self, {k: t.wrap(s.accessor(0, pos[k])(term)) for k, t in self.fields.items()})
+        v = VRec(self, {k: t.wrap(s.accessor(0, pos[k])(term)) for k, t in self.fields.items()})
+        # remember the term this record was unpacked from: re-packing an UNMODIFIED record gives the term back
+        # (instead of mkrec(acc_1(term), ..), which is equal but much harder for the sequence solver)
+        v.packed_from = (term, dict(v.fields))
+        return v
 
     def pack(self, v):
         if not isinstance(v, VRec):
             raise Unsupported(f"cannot pack {v} as record {self.name}")
         s = self.sort()
+        pf = getattr(v, "packed_from", None)
+        if pf is not None and pf[0].sort().eq(s) and set(pf[1]) == set(v.fields) \
+                and all(v.fields[k] is x and _immutable_value(x) for k, x in pf[1].items()):
+            return pf[0]
         return s.constructor(0)(*[self.fields[k].pack(v.fields[k]) for k in sorted(self.fields)])
+
+
+def _immutable_value(x):
+    """Values that cannot change behind an unchanged Python reference (no in-place mutation possible)."""
+    if isinstance(x, (VInt, VBool, VStr, VOpaque, VNode, VAny, VNone)):
+        return True
+    if isinstance(x, VOpt):
+        return _immutable_value(x.val)
+    if isinstance(x, VTuple):
+        return all(_immutable_value(y) for y in x.items)
+    return False
 
 
 def _tykey(t):
